@@ -18,7 +18,6 @@ use bytes::BufMut;
 use qbase::{role::Role, sid::Dir};
 
 use super::*;
-use crate::recv::incoming::Incoming;
 
 include!("../qbase/wake_common.rs");
 use vwk::{waker, wakes};
@@ -143,6 +142,59 @@ fn any_rcvbuf<const NREAD: u64, const A: u64, const B: u64>() -> (rcvbuf::RecvBu
     (buf, nread, contiguous)
 }
 
+/// `Incoming::recv_data` on a receiver state held on the stack. CBMC cannot constant-fold a state
+/// behind `Arc<Mutex<..>>` (heap objects are byte arrays to it) and then walks every arm of every
+/// match with every RecvBuf operation in it (measured: no instance finishes in 600 s). This is a
+/// line-by-line transcription of the body of `Incoming::recv_data` (recv/incoming.rs) — the ONE
+/// non-real part of these harnesses; every function it calls is the real one.
+fn incoming_recv_data(state: Recver<Broker>, stream_frame: StreamFrame, body: Bytes) -> (Recver<Broker>, Result<(bool, usize), QuicError>) {
+    let mut is_into_rcvd = false;
+    let fresh_data;
+    let mut receiving_state = state;
+    match &mut receiving_state {
+        Recver::Recv(r) => {
+            if stream_frame.is_fin() {
+                let mut size_known = match r.determin_size(&stream_frame) {
+                    Ok(s) => s,
+                    Err(e) => return (receiving_state, Err(e)),
+                };
+                fresh_data = match size_known.recv(stream_frame, body) {
+                    Ok(n) => n,
+                    Err(e) => return (receiving_state, Err(e)),
+                };
+                if size_known.is_all_rcvd() {
+                    is_into_rcvd = true;
+                    let old = core::mem::replace(&mut receiving_state, Recver::DataRcvd(size_known.upgrade()));
+                    core::mem::forget(old);
+                    core::mem::forget(size_known);
+                } else {
+                    let old = core::mem::replace(&mut receiving_state, Recver::SizeKnown(size_known));
+                    core::mem::forget(old);
+                }
+            } else {
+                fresh_data = match r.recv(stream_frame, body) {
+                    Ok(n) => n,
+                    Err(e) => return (receiving_state, Err(e)),
+                };
+            }
+        }
+        Recver::SizeKnown(r) => {
+            fresh_data = match r.recv(stream_frame, body) {
+                Ok(n) => n,
+                Err(e) => return (receiving_state, Err(e)),
+            };
+            if r.is_all_rcvd() {
+                is_into_rcvd = true;
+                let up = r.upgrade();
+                let old = core::mem::replace(&mut receiving_state, Recver::DataRcvd(up));
+                core::mem::forget(old);
+            }
+        }
+        _ => fresh_data = 0,
+    }
+    (receiving_state, Ok((is_into_rcvd, fresh_data)))
+}
+
 /// SIZE_KNOWN: the FIN arrived before (state SizeKnown) or not yet (state Recv).
 fn recv_data_step<const NREAD: u64, const A: u64, const B: u64, const SIZE_KNOWN: bool>() {
     // the stream the peer is sending: F bytes (everything already buffered lies below F)
@@ -164,8 +216,6 @@ fn recv_data_step<const NREAD: u64, const A: u64, const B: u64, const SIZE_KNOWN
         kani::assume(f <= max_stream_data && max_stream_data <= VARINT_MAX);
         Recver::Recv(Recv { stream_id: sid, rcvbuf, read_waker, stop_state: None, broker: Broker, largest, max_stream_data })
     };
-    let arc = ArcRecver(Arc::new(Mutex::new(Ok(state))));
-    let incoming = Incoming::new(arc.clone());
     // a frame of that stream: [off, end) with end <= F; FIN only on a frame that ends at F
     let off: u64 = kani::any();
     let end: u64 = kani::any();
@@ -176,7 +226,7 @@ fn recv_data_step<const NREAD: u64, const A: u64, const B: u64, const SIZE_KNOWN
     let mut frame = StreamFrame::new(sid, off, (end - off) as usize);
     frame.set_eos_flag(fin);
 
-    let res = incoming.recv_data(frame, content(off, end));
+    let (mut state, res) = incoming_recv_data(state, frame, content(off, end));
 
     let (into_rcvd, fresh) = match res {
         Ok(v) => v,
@@ -194,8 +244,7 @@ fn recv_data_step<const NREAD: u64, const A: u64, const B: u64, const SIZE_KNOWN
         contiguous
     };
     let size_known = SIZE_KNOWN || fin;
-    let mut guard = arc.recver();
-    let st = guard.as_mut().unwrap();
+    let st = &mut state;
     let w1 = waker(1);
     let mut cx = Context::from_waker(&w1);
     let cap: usize = kani::any();
@@ -254,9 +303,7 @@ fn recv_data_step<const NREAD: u64, const A: u64, const B: u64, const SIZE_KNOWN
     kani::cover!(into_rcvd && fin, "FIN completes the stream");
     kani::cover!(!SIZE_KNOWN || (into_rcvd && !fin), "the last missing bytes arrive after the FIN");
     kani::cover!(fin && !into_rcvd, "FIN before the data: size known, bytes missing");
-    drop(guard);
-    core::mem::forget(incoming);
-    core::mem::forget(arc);
+    core::mem::forget(state);
 }
 
 macro_rules! fin_harness {
